@@ -611,7 +611,7 @@ Proof.
     apply BI_maybe_delete. eapply BI_same; [| |exact HJ2]; reflexivity.
   - destruct (update_last_cmid _ _ _ _ sv) as [sv1|] eqn:Hu; [|discriminate].
     intros [= <- <-]. split; [constructor|]. intros _. eapply BI_update_last_cmid; eauto.
-  - destruct parsed; intros [= <- <-]; (split; [constructor|intros _]); [|exact HJ]. eapply BI_same; [| |exact HJ]; reflexivity.
+  - destruct (config_in_force _ _ _); intros [= <- <-]; (split; [constructor|intros _]); [|exact HJ]. eapply BI_same; [| |exact HJ]; reflexivity.
 Qed.
 
 Fixpoint intact_history (e : env) (sv : server) (es : list entry) : Prop :=
@@ -635,7 +635,7 @@ Proof.
     destruct (update_last_cmid _ _ _ _ _); [|intros [H|H]; congruence]. unfold run_handler.
     destruct (process_message _ _ _ _ _ _) as [[[[] ?] ?]|?|?]; intros [H|H]; discriminate.
   - destruct (update_last_cmid _ _ _ _ _); intros [H|H]; congruence.
-  - destruct parsed; intros [H|H]; discriminate.
+  - destruct (config_in_force _ _ _); intros [H|H]; discriminate.
 Qed.
 
 Lemma BI_step net e sv en sv' :
